@@ -166,4 +166,34 @@ CLAIMS = {
         "note": "Undecided: alignment decisions at the tolerance, lattice membership of clipped subregions in floats. By design the "
                 "getter hands out the internal dict, so callers can bypass the setter (documented, not reported).",
     },
+    "C15": {
+        "technique": "static analysis: term normal form of the norm getter/setter and orientation against the guarded-division "
+                     "idiom, constructor-keyword provenance, statement-order (typestate) rule for values -> norm -> validity, slot "
+                     "audit (no stored norm)",
+        "level": _GEN + "For C15: the norm is the Euclidean length over the component axis on the same mesh with the same unit and "
+                 "validity; the setter divides only where the norm is non-zero into a zero-initialised array and then rescales by "
+                 "the requested norm; orientation divides where ~isclose(norm, 0) at default tolerance; the constructor applies "
+                 "values, norm, validity in that order and nothing stores a norm for later re-application.",
+        "note": "Undecided: exact lengths/directions for magnitudes 1e-6..1e150 (overflow/underflow of squares).",
+    },
+    "C16": {
+        "technique": "static analysis: per-array permutation/reshape terms of the VTK writer, name agreement between writer and "
+                     "reader, inverse permutation and mesh reconstruction terms of the reader, branch table of representations, "
+                     "guard dominance for the refusals",
+        "level": _GEN + "For C16: point dimensions n+1 and vertex coordinates per axis in x,y,z order; norm, components, field and "
+                 "validity arrays permuted (z,y,x[,c]) and flattened x-fastest under the names the reader distinguishes; the reader "
+                 "rebuilds n, corners, values and validity with the inverse order; xml/bin/txt select the documented writers; "
+                 "legacy point-data files are dispatched and read in mesh order; non-3d fields and unlabelled vectors are refused.",
+        "note": "Undecided: what VTK writes and a foreign reader finds; ten-digit text precision. Trusted: VTK cell numbering "
+                "(x fastest), GetBounds/GetDimensions layout.",
+    },
+    "C17": {
+        "technique": "static analysis: term normal form of the exported DataArray arguments (coordinates, dims, attrs) and of the "
+                     "reconstruction formulas, attribute-name agreement between export and import, guard dominance for refusals",
+        "level": _GEN + "For C17: exported coordinates are the cell centres with per-axis units, vectors carry a labelled 'vdims' "
+                 "dimension, scalars are squeezed, attrs hold cell, corners, nvdim, unit and tolerance under the names the importer "
+                 "reads; without attributes the mesh is rebuilt from mean spacing and half-cell margins of the same dimension; "
+                 "labels and dtype reach the constructor; the listed malformed inputs are refused before construction.",
+        "note": "Undecided: equality of the round-tripped field; the np.allclose spacing decision.",
+    },
 }
